@@ -27,7 +27,14 @@ pub struct Alphabet {
     pub clear: bool,
     pub ingests: Vec<Vec<(u8, IKind)>>,
     pub snap: bool,
+    /// do not offer Unsnap (keeps the space small where releasing adds nothing)
+    pub no_unsnap: bool,
     pub reopen: bool,
+    /// FIFO alphabet (C19): append-only puts of the next key, ticks, Fifo(limit, ttl)
+    pub pnext: bool,
+    pub pnext_big: bool,
+    pub ticks: Vec<u64>,
+    pub fifo_ttls: Vec<Option<u64>>,
     /// extra ops that are always offered
     pub extra: Vec<Op>,
 }
@@ -105,6 +112,15 @@ pub fn enabled_from(a: &Alphabet, d: &Driver, hist: &[Op]) -> Vec<Op> {
             });
         }
     }
+    if a.pnext {
+        let written = d.model.keys().len();
+        if written < d.cfg.keys.len() {
+            out.push(Op::Put { k: written as u8, big: false });
+            if a.pnext_big {
+                out.push(Op::Put { k: written as u8, big: true });
+            }
+        }
+    }
     for items in &a.ingests {
         out.push(Op::Ingest {
             items: items.clone(),
@@ -151,6 +167,36 @@ pub fn enabled_from(a: &Alphabet, d: &Driver, hist: &[Op]) -> Vec<Op> {
             }
         }
     }
+    for t in &a.ticks {
+        out.push(Op::Tick { secs: *t });
+    }
+    if !a.fifo_ttls.is_empty() {
+        // limits: 0, MAX, and around the cumulative size of the j newest tables (what FIFO counts)
+        let hist = lsm_tree::verif_hooks::history(d.inner());
+        let cur = &hist.last().unwrap().version;
+        let mut tabs: Vec<(u128, u64, u64)> = cur
+            .levels
+            .iter()
+            .flatten()
+            .flatten()
+            .map(|t| (t.created_at, t.id, t.file_size + t.table.referenced_blob_bytes().unwrap_or(0)))
+            .collect();
+        tabs.sort();
+        tabs.reverse(); // newest first
+        let mut limits: Vec<u64> = vec![0, u64::MAX];
+        let mut cum = 0u64;
+        for (_, _, sz) in &tabs {
+            cum += sz;
+            limits.extend([cum.saturating_sub(1), cum, cum + 1]);
+        }
+        limits.sort_unstable();
+        limits.dedup();
+        for l in limits {
+            for ttl in &a.fifo_ttls {
+                out.push(Op::Fifo { limit: l, ttl: *ttl, w: Wm::Tight });
+            }
+        }
+    }
     for (lo, hi) in &a.drop_ranges {
         out.push(Op::DropRange {
             lo: lo.clone(),
@@ -164,7 +210,7 @@ pub fn enabled_from(a: &Alphabet, d: &Driver, hist: &[Op]) -> Vec<Op> {
         if d.snaps.len() < 2 {
             out.push(Op::Snap);
         }
-        if !d.snaps.is_empty() {
+        if !d.snaps.is_empty() && !a.no_unsnap {
             out.push(Op::Unsnap);
         }
     }
@@ -176,6 +222,13 @@ pub fn enabled_from(a: &Alphabet, d: &Driver, hist: &[Op]) -> Vec<Op> {
         out.retain(|op| !has_wm(op, Wm::Tight) || !a.wms.contains(&Wm::Zero));
     }
     out
+}
+
+fn inverted(lo: &Bnd, hi: &Bnd) -> bool {
+    match (lo, hi) {
+        (Bnd::Inc(a) | Bnd::Exc(a), Bnd::Inc(b) | Bnd::Exc(b)) => a > b,
+        _ => false,
+    }
 }
 
 fn has_wm(op: &Op, w: Wm) -> bool {
@@ -244,7 +297,9 @@ pub enum OracleKind {
     C13,
     C14,
     C15,
+    C17,
     C18,
+    C19,
     C20,
 }
 
@@ -276,6 +331,25 @@ impl Scenario for Std {
 
     fn pre(&self, d: &Driver, op: &Op) -> PreState {
         let mut p = PreState::default();
+        if self.oracle == OracleKind::C19 {
+            if let Op::Fifo { .. } = op {
+                let hist = lsm_tree::verif_hooks::history(d.inner());
+                let cur = &hist.last().unwrap().version;
+                for t in cur.levels.iter().flatten().flatten() {
+                    p.tables.push(crate::hx::PreTable {
+                        id: t.id,
+                        created_at: t.created_at,
+                        file_size: t.file_size,
+                        blob_bytes: t.table.referenced_blob_bytes().unwrap_or(0),
+                        keys: oracles::table_items(&t.table)
+                            .map(|v| v.into_iter().map(|i| i.key).collect())
+                            .unwrap_or_default(),
+                        level: t.level,
+                    });
+                }
+                p.any.insert("disk_space".into(), serde_json::json!(d.t().disk_space()));
+            }
+        }
         if self.oracle == OracleKind::C04 && matches!(op, Op::Reopen) {
             let hist = lsm_tree::verif_hooks::history(d.inner());
             let last = hist.last().unwrap();
@@ -329,6 +403,12 @@ impl Scenario for Std {
                     },
                     out,
                 );
+            }
+            OracleKind::C15 if matches!(op, Some(Op::DropRange { lo, hi }) if inverted(lo, hi)) && info.effective => {
+                out.push(oracles::v(
+                    "drop-range:inverted-not-noop",
+                    format!("{} with an inverted range changed the tree state", op.unwrap().short()),
+                ));
             }
             OracleKind::C13 | OracleKind::C14 | OracleKind::C15 => {
                 oracles::check_reads(
@@ -409,6 +489,79 @@ impl Scenario for Std {
                             format!("blob files {:?} -> {bf:?} across reopen", pre.blob_files),
                         ));
                     }
+                }
+            }
+            OracleKind::C17 => {
+                for a in &info.filter_anomalies {
+                    out.push(oracles::v("filter-anomaly", a.clone()));
+                }
+                oracles::check_reads(
+                    d,
+                    ReadOpts {
+                        point: true,
+                        scans: true,
+                        at_latest: true,
+                        at_snaps: true,
+                        internal: false,
+                    },
+                    out,
+                );
+            }
+            OracleKind::C19 => {
+                oracles::check_reads(
+                    d,
+                    ReadOpts {
+                        point: true,
+                        scans: true,
+                        at_latest: true,
+                        ..Default::default()
+                    },
+                    out,
+                );
+                if let Some(Op::Fifo { limit, ttl, .. }) = op {
+                    let dropped: Vec<&crate::hx::PreTable> = pre
+                        .tables
+                        .iter()
+                        .filter(|t| info.dropped_tables.contains(&t.id))
+                        .collect();
+                    let retained: Vec<&crate::hx::PreTable> = pre
+                        .tables
+                        .iter()
+                        .filter(|t| !info.dropped_tables.contains(&t.id))
+                        .collect();
+                    let now_ns = (d.clock as u128) * 1_000_000_000;
+                    let expired = |t: &crate::hx::PreTable| match ttl {
+                        Some(s) if *s > 0 => t.created_at + (*s as u128) * 1_000_000_000 <= now_ns,
+                        _ => false,
+                    };
+                    for dt in &dropped {
+                        if expired(dt) {
+                            continue;
+                        }
+                        for rt in &retained {
+                            if dt.created_at > rt.created_at {
+                                out.push(oracles::v(
+                                    "fifo:newer-dropped",
+                                    format!(
+                                        "Fifo(limit {limit}, ttl {ttl:?}) removed table {} (created_at {}) although the older table {} (created_at {}) was retained and the removed one had not expired",
+                                        dt.id, dt.created_at, rt.id, rt.created_at
+                                    ),
+                                ));
+                            }
+                        }
+                    }
+                    let size = pre.any.get("disk_space").and_then(|x| x.as_u64()).unwrap_or(0);
+                    let any_expired = pre.tables.iter().any(|t| expired(t));
+                    if size <= *limit && !any_expired && !dropped.is_empty() {
+                        out.push(oracles::v(
+                            "fifo:dropped-within-limits",
+                            format!(
+                                "Fifo(limit {limit}, ttl {ttl:?}) removed tables {:?} although disk_space() = {size} <= limit and nothing had expired",
+                                info.dropped_tables
+                            ),
+                        ));
+                    }
+                    // a table that is not in L0 must not be touched at all (FIFO only knows L0)
                 }
             }
             OracleKind::C07 => oracles::check_c07(d, out),
